@@ -518,7 +518,7 @@ def list_shape(fnode, name):
     def from_expr(e, depth=0):
         if isinstance(e, ast.List):
             return [("one", x) for x in e.elts]
-        if isinstance(e, ast.ListComp) and len(e.generators) == 1 and not e.generators[0].ifs:
+        if isinstance(e, (ast.ListComp, ast.GeneratorExp)) and len(e.generators) == 1 and not e.generators[0].ifs:
             g = e.generators[0]
             return [("each", e.elt, u(g.target), u(g.iter))]
         if isinstance(e, ast.BinOp) and isinstance(e.op, ast.Add):
@@ -601,3 +601,51 @@ def ordering_of(fnode, name):
         return None
     key, rev = kw(sorts[0])
     return src, key, rev
+
+
+def seq_shape(fnode, e, depth=0):
+    """Symbolic element sequence of a list / tuple / generator valued expression:
+    [("one", expr) | ("each", elt_expr, target_text, iter_text)], resolving locals with a single definition.  None if unknown."""
+    from .norm import u
+
+    if isinstance(e, (ast.List, ast.Tuple)):
+        out = []
+        for x in e.elts:
+            if isinstance(x, ast.Starred):
+                sub = seq_shape(fnode, x.value, depth)
+                if sub is None:
+                    return None
+                out += sub
+            else:
+                out.append(("one", x))
+        return out
+    if isinstance(e, (ast.ListComp, ast.GeneratorExp)) and len(e.generators) == 1 and not e.generators[0].ifs:
+        g = e.generators[0]
+        return [("each", e.elt, u(g.target), u(g.iter))]
+    if isinstance(e, ast.BinOp) and isinstance(e.op, ast.Add):
+        a_, b_ = seq_shape(fnode, e.left, depth), seq_shape(fnode, e.right, depth)
+        return None if a_ is None or b_ is None else a_ + b_
+    if isinstance(e, ast.Call) and isinstance(e.func, ast.Name) and e.func.id in ("list", "tuple") and len(e.args) == 1:
+        return seq_shape(fnode, e.args[0], depth)
+    if isinstance(e, ast.Name) and depth < 4:
+        ls = list_shape(fnode, e.id)
+        if ls is not None:
+            return ls
+        d = single_def(fnode, e.id)
+        if d is not None:
+            return seq_shape(fnode, d, depth + 1)
+    return None
+
+
+def printed_shape(fnode, call):
+    """Element sequence of the positional arguments of a print(...) call (see seq_shape)."""
+    out = []
+    for a in call.args:
+        if isinstance(a, ast.Starred):
+            sub = seq_shape(fnode, a.value)
+            if sub is None:
+                return None
+            out += sub
+        else:
+            out.append(("one", a))
+    return out
